@@ -67,7 +67,7 @@ class C01(Profile):
             rng, engines=["it", "it2"] if rng.random() < 0.5 else ["it"],
             weights={**UNARY_W, "chain": 2, "mat": 1, "xfer": 1, "leaf": 1, "run": 2, "reuse_mat": 0.6,
                      "cursor_open": 1.5, "pull": 3, "abandon": 0.4, "custom": 1.5, "process": 0.4,
-                     "flag_on_processed": 0.4, "redeclared_twin": 0.6},
+                     "flag_on_processed": 0.4, "redeclared_twin": 0.6, "ephemeral": 1.0},
             max_ops=16 if big else 10, udf_p=0.08, special_leaf_p=0.06, pipeline_p=0.3, flags_p=0.1, redeclare_p=0.12,
             bounds=("exact", "exact", "loose", "zeromin", "unbounded"),
         )
@@ -102,7 +102,7 @@ class C02(Profile):
         big = tier == "thorough"
         g = Gen(
             rng, engines=["sql"],
-            weights={**UNARY_W, "chain": 2, "join": 3, "leaf": 1.5},
+            weights={**UNARY_W, "chain": 2, "join": 3, "leaf": 1.5, "ephemeral": 0.8},
             max_ops=14 if big else 9, nleaves=(2, 4), hidden_p=0.3, udf_p=0.05,
             bounds=("exact", "loose", "zeromin", "unbounded"), special_leaf_p=0.05, adjacent_p=0.3, pipeline_p=0.4,
         )
@@ -270,7 +270,8 @@ class C05(Profile):
         g = Gen(rng, engines=[eng],
                 weights={"calc": 2, "proj": 3, "sel": 3, "dedup": 1, "sort": 3, "slice": 4, "chain": 0.5, "leaf": 0.5,
                          "custom": 2 if eng == "it" else 0},
-                max_ops=14 if big else 9, nleaves=(1, 2), adjacent_p=0.6, total_sort_p=0.3, pipeline_p=0.3, stride_order_only=True)
+                max_ops=14 if big else 9, nleaves=(1, 2), adjacent_p=0.6, total_sort_p=0.3, pipeline_p=0.3, stride_order_only=True,
+                udf_p=0.04)
         return {"config": swarm_config(rng), "ops": g.build()}
 
     def dn_keys(self, run):
@@ -300,12 +301,14 @@ class C06(Profile):
     def gen(self, rng, tier):
         big = tier == "thorough"
         mode = rng.choice(["sql", "it", "multi"])
-        engines = {"sql": ["sql"], "it": ["it"], "multi": ["sql", "it"]}[mode]
+        engines = {"sql": ["sql"], "it": ["it", "it2"] if rng.random() < 0.4 else ["it"], "multi": ["sql", "it"]}[mode]
         w = {**UNARY_W, "chain": 2.5, "chain_empty": 1, "join": 2.5 if mode != "it" else 0, "leaf": 2, "mat": 0.5,
-             "custom": 1 if mode != "sql" else 0}
-        if mode == "multi":
+             "custom": 1 if mode != "sql" else 0, "mark": 0.7}
+        if len(engines) > 1:
             w["xfer"] = 2
-        g = Gen(rng, engines=engines, weights=w, max_ops=13 if big else 9, nleaves=(2, 3),
+            w["process"] = 0.6
+            w["flag_on_processed"] = 0.6
+        g = Gen(rng, engines=engines, weights=w, max_ops=13 if big else 9, nleaves=(2, 3), flags_p=0.1 if len(engines) > 1 else 0.0,
                 bounds=("exact", "loose", "zeromin", "unbounded", "minonly"), special_leaf_p=0.25, zero_col_p=0.15,
                 redeclare_p=0.25)
         return {"config": swarm_config(rng), "ops": g.build()}
@@ -419,7 +422,7 @@ class C09(Profile):
     def gen(self, rng, tier):
         big = tier == "thorough"
         w = {**UNARY_W, "xfer": 2, "mat": 1.5, "chain": 1.5, "join": 1, "leaf": 1, "process": 2, "run": 3, "rebuild": 3,
-             "twice": 2, "ill": 2, "diag": 1, "cursor_open": 0.7, "pull": 1.5, "abandon": 0.3, "attach": 0.5, "mark": 0.8, "reuse_mat": 0.6, "flag_on_processed": 0.4, "twin": 0.8, "redeclared_twin": 0.5}
+             "twice": 2, "ill": 2, "diag": 1, "cursor_open": 0.7, "pull": 1.5, "abandon": 0.3, "attach": 0.5, "mark": 0.8, "reuse_mat": 0.6, "flag_on_processed": 0.4, "twin": 0.8, "redeclared_twin": 0.5, "ephemeral": 0.6}
         return multi_gen(rng, tier, weights=w, flags_p=0.3, max_ops=30 if big else 14,
                          engines=rng.choice([["sql"], ["it"], ["sql", "it"], ["sql", "it", "it2"]]), named_mat=True,
                          redeclare_p=0.15)
@@ -583,7 +586,7 @@ class C16(Profile):
         mode = rng.choice(["sql", "it", "multi"])
         engines = {"sql": ["sql"], "it": ["it"], "multi": ["sql", "it"]}[mode]
         w = {"calc": 1, "proj": 1.5, "sel": 4, "dedup": 1, "sort": 1, "slice": 3, "chain": 3, "chain_empty": 1.5,
-             "join": 3 if mode != "it" else 0, "leaf": 2, "diag": 6, "mark": 0.8}
+             "join": 3 if mode != "it" else 0, "leaf": 2, "diag": 6, "mark": 0.8, "custom": 1.5 if mode != "sql" else 0}
         if mode == "multi":
             w["xfer"] = 2
             w["mat"] = 0.7
@@ -630,7 +633,7 @@ class C17(Profile):
         if rng.random() < 0.25:
             w = {**MULTI_W, "process": 3, "rawtree": 2, "conform_inner": 3, "mat": 3}
             return multi_gen(rng, tier, weights=w, flags_p=0.3, engines=["sql", "it"])
-        g = Gen(rng, engines=["sql"], weights={**UNARY_W, "chain": 3.5, "join": 2, "leaf": 1, "rawtree": 3, "conform_inner": 1,
+        g = Gen(rng, engines=["sql"], weights={**UNARY_W, "chain": 3.5, "join": 2, "leaf": 1, "rawtree": 3, "conform_inner": 1, "ephemeral": 1.0,
                                                "mat": 0.7, "process": 0.7},
                 max_ops=14 if big else 10, nleaves=(1, 3), adjacent_p=0.35, pipeline_p=0.4)
         return {"config": swarm_config(rng), "ops": g.build()}
